@@ -28,6 +28,11 @@ func init() {
 }
 
 func c42PolicyText(c *Ctx) {
+	// the parser reads the text line by line with a bufio.Scanner: a line must be
+	// consumed before the next Scan(), the scanner re-uses its buffer
+	kept := scannerBytesRetained(c, "gateway/routing.")
+	c.Check(len(kept) == 0, "M2-lines-not-retained", "gateway/routing:scanner-lines", 0,
+		fmt.Sprintf("%d place(s) keep a Scanner.Bytes() slice beyond the iteration: %s", len(kept), strings.Join(truncList(kept, 2), " | ")))
 	rule := "M1-policy-text-columns"
 	rp := "gateway/routing."
 	if v := c.View("(" + rp + "Policy).MarshalText"); v != nil {
